@@ -1,6 +1,7 @@
 (** Extraction of the reader engine (ExtrOcamlBasic only; numbers stay inductive). *)
 Require Extraction.
 Require Import ExtrOcamlBasic.
-From Carquet Require Import Reader.CursorSpec Reader.CursorModel.
+From Carquet Require Import Gen.Reader_gen Reader.CursorSpec Reader.CursorModel Reader.IoModeModel Reader.BatchModel.
 Extraction Language OCaml.
-Extraction "extracted/reader_ext.ml" CursorModel.run CursorModel.open CursorModel.rows_of CursorSpec.spec_outputs.
+Extraction "extracted/reader_ext.ml" CursorModel.run CursorModel.open CursorModel.rows_of CursorSpec.spec_outputs
+  BatchModel.batches BatchModel.table_of CursorSpec.spec_batches IoModeModel.footer_location Reader_gen.Reader_zero_copy_type.
